@@ -145,3 +145,34 @@ fn function_text_roundtrip(display: bool, id: &'static str) {
 }
 pub fn h_c09_functions_display_form() { function_text_roundtrip(true, "C09.functions_display_form.second_parse_gives_the_same_tree"); reach("C09.functions_display"); }
 pub fn h_c09_functions_stored_form() { function_text_roundtrip(false, "C09.functions_stored_form.second_parse_gives_the_same_tree"); reach("C09.functions_stored"); }
+
+/// the display form in the other languages and in a decimal-comma locale: typed in English, shown in de / es / fr / it
+/// (solver chooses) with the en or the de locale, read back there: the same tree
+pub fn h_c09_functions_other_languages() {
+    let (shape, l, o, r) = (any_u8(), any_usize_to(FARGS.len() - 1), any_usize_to(FOPS.len() - 1), any_usize_to(FARGS.len() - 1));
+    assume(shape < 6);
+    let (a, op, b) = (FARGS[l], FOPS[o], FARGS[r]);
+    let text = if shape == 0 { format!("SUM({a},{b})") }
+        else if shape == 1 { format!("IF({a}{op}{b},{a},{b})") }
+        else if shape == 2 { format!("SUM({a}){op}{b}") }
+        else if shape == 3 { format!("{a}{op}MAX({b},2)") }
+        else if shape == 4 { format!("-SUM({a}{op}{b})") }
+        else { format!("IF(AND({a},PI()>3),{b}%,NOT({a}))") };
+    if shape == 0 || shape == 5 { assume(o == 0); }
+    // one language per path keeps the path count down: the language index is tied to the operator index
+    let lang_code = if o % 4 == 0 { "de" } else if o % 4 == 1 { "es" } else if o % 4 == 2 { "fr" } else { "it" };
+    let comma_locale = any_bool();
+    let en = locale_with(".", ",");
+    let other = if comma_locale { locale_with(",", ".") } else { locale_with(".", ",") };
+    let lang = match crate::language::get_language(lang_code) { Ok(l) => l, Err(_) => { return; } };
+    let ctx = CellReferenceRC { sheet: "Sheet1".to_string(), row: 5, column: 5 };
+    let mut parser = Parser::new(vec!["Sheet1".to_string()], vec![], HashMap::new(), &en, language_en());
+    let first = parser.parse(&text, &ctx);
+    let rejected = match first { Node::ParseErrorKind { .. } => true, _ => false };
+    check("C09.languages.accepted", !rejected);
+    let printed = to_localized_string(&first, &ctx, &other, lang);
+    let mut parser2 = Parser::new(vec!["Sheet1".to_string()], vec![], HashMap::new(), &other, lang);
+    let second = parser2.parse(&printed, &ctx);
+    check("C09.languages.second_parse_gives_the_same_tree", second == first);
+    reach("C09.languages");
+}
